@@ -266,7 +266,7 @@ class Builder:
             a += ["--build-type", "component", "--component-out-dir", self.comp, "--rustc-path", STUB, "--runtime-rlib-path", FAKE_RLIB]
         return a
 
-    def build(self, kill_at=None, torn=False, fail=None, partial=None, threads="1"):
+    def build(self, kill_at=None, torn=False, fail=None, partial=None, threads="1", killed=False):
         log = os.path.join(self.root, "fs.log")
         cnt = os.path.join(self.root, "fs.cnt")
         for p in (log, cnt):
@@ -281,6 +281,8 @@ class Builder:
             env["STUB_FAIL"] = fail
             if partial:
                 env["STUB_PARTIAL"] = fail
+            if killed:
+                env["STUB_KILL"] = fail
         rc, so, se = run_cli(self.args(), self.root, env=env)
         muts = []
         if os.path.exists(log):
@@ -422,6 +424,9 @@ def c12_task(task):
                 for c in (comps if task["exhaustive"] else comps[:2]):
                     faults.append(("rustc-fail", c))
                     faults.append(("rustc-fail-partial", c))
+                    # the rustc child terminated by a signal (OOM killer, kill -9): no exit code
+                    faults.append(("rustc-killed", c))
+                    faults.append(("rustc-killed-partial", c))
             for kind, arg in faults:
                 if budget <= 0:
                     break
@@ -434,10 +439,10 @@ def c12_task(task):
                     rc, so, se, m2 = B.build(kill_at=arg, torn=(kind == "torn"))
                     _cnt(out, "crash_points_hit")
                 else:
-                    rc, so, se, m2 = B.build(fail=arg, partial=kind.endswith("partial"))
-                    _cnt(out, "rustc_failures_injected")
+                    rc, so, se, m2 = B.build(fail=arg, partial=kind.endswith("partial"), killed=kind.startswith("rustc-killed"))
+                    _cnt(out, "rustc_kills_injected" if kind.startswith("rustc-killed") else "rustc_failures_injected")
                 hist = [["build", "v1"], ["edit", v2], [kind, arg]]
-                if rc == 0 and kind in ("kill", "torn", "rustc-fail", "rustc-fail-partial") and kind != "ok":
+                if rc == 0 and kind != "ok":
                     # the fault did not hit (e.g. component skipped): still a legal history
                     pass
                 if rc == 0:
